@@ -611,15 +611,34 @@ def line_tracer(sched, suffixes):
 # a thread still alive leaves parked OS threads behind.  So threaded runs execute
 # in a forked child and the verdict comes back through a pipe as JSON.
 #
-#   VERIF_THREADS_FORK=scenario (default)  one child per scenario
-#   VERIF_THREADS_FORK=reuse               one child per parent process runs scenarios
-#       back to back; it is thrown away (and a new one forked on demand) as soon as a
-#       run ends *dirty* (verdict delivered from a fatal path, by a thread other than
-#       the main one, or with ``clean=False``) or after ``max_runs`` runs.  Parked
-#       threads therefore still die with their process, but the fork is amortised.
+#   VERIF_THREADS_FORK=reuse (default)  one child per parent process (pool worker) runs
+#       scenarios back to back; it is thrown away (and a new one forked on demand) as
+#       soon as a run ends *dirty* (verdict delivered from a fatal path, by a thread
+#       other than the main one, with ``clean=False``, or any exception in the harness)
+#       or after ``max_runs`` clean runs.  Parked threads therefore still die with their
+#       process, but the fork (5-300 ms on a loaded box, and not parallel) is amortised.
+#   VERIF_THREADS_FORK=each             one child per scenario; ``run(..., fresh=True)``
+#       (used for replays) does that whatever the mode.
 #
 # A child that does not answer within ``wall`` seconds is killed and the run is a
 # harness error (RuntimeError), never a verdict.
+
+
+_PARENT_FDS = set()  # parent-side pipe ends of live server children
+
+
+def _close_inherited():
+    # a forked child (ours or anybody's) must not keep another child's request pipe open,
+    # or that child never sees EOF when its parent is done with it
+    for fd in list(_PARENT_FDS):
+        try:
+            os.close(fd)
+        except OSError:
+            pass
+    _PARENT_FDS.clear()
+
+
+os.register_at_fork(after_in_child=_close_inherited)
 
 
 def _write_all(fd, data):
@@ -741,19 +760,23 @@ class ForkRunner:
 
     @staticmethod
     def mode():
-        m = os.environ.get("VERIF_THREADS_FORK", "scenario")
-        return "reuse" if m == "reuse" else "scenario"
+        m = os.environ.get("VERIF_THREADS_FORK", "reuse")
+        return "each" if m in ("each", "scenario") else "reuse"
 
-    def run(self, request):
-        if self.mode() == "scenario":
+    def run(self, request, fresh=False):
+        """``fresh``: run in a child of its own whatever the mode (replays)."""
+        if fresh or self.mode() == "each":
             h = self.handler
             return run_forked(lambda result: h(request, result), wall=self.wall)
         return self._run_reuse(request)
 
     # -- reuse mode -----------------------------------------------------------
     def _drop(self, kill):
+        """Forget the current child.  kill=False only when the child is known to be
+        exiting by itself (it said so, or it has served max_runs)."""
         if self.pid is not None and self.owner == os.getpid():
             for fd in (self.rfd, self.wfd):
+                _PARENT_FDS.discard(fd)
                 try:
                     os.close(fd)
                 except OSError:
@@ -770,7 +793,7 @@ class ForkRunner:
         self.served = 0
 
     def close(self):
-        self._drop(kill=False)
+        self._drop(kill=True)
 
     def _spawn(self):
         import atexit
@@ -794,6 +817,8 @@ class ForkRunner:
         os.close(c2p_w)
         os.close(p2c_r)
         self.pid, self.rfd, self.wfd = pid, c2p_r, p2c_w
+        _PARENT_FDS.add(c2p_r)
+        _PARENT_FDS.add(p2c_w)
         self.buf = b""
         self.served = 0
 
